@@ -103,8 +103,11 @@ func genStream(t *rapid.T) StreamCase {
 	n := rapid.IntRange(1, 14).Draw(t, "nsteps")
 	// burst shape: a run of writes, then the edits, then anything - so that edits find frames in flight
 	burst := tamper && rapid.Bool().Draw(t, "burst")
-	nw, nm := 0, 0
+	nw, nm, burstLane := 0, 0, 0
 	if burst {
+		if !oneWay {
+			burstLane = rapid.IntRange(0, 1).Draw(t, "burstLane")
+		}
 		nw = rapid.IntRange(1, 4).Draw(t, "burstWrites")
 		nm = rapid.IntRange(1, 2).Draw(t, "burstEdits")
 		n += nw + nm
@@ -116,9 +119,9 @@ func genStream(t *rapid.T) StreamCase {
 		}
 		k := rapid.IntRange(0, 9).Draw(t, "op")
 		if burst && i < nw {
-			k = 0
+			k, s.Lane = 0, burstLane
 		} else if burst && i < nw+nm {
-			k = 9
+			k, s.Lane = 9, burstLane
 		}
 		switch {
 		case k < 4:
